@@ -11,24 +11,27 @@ namespace Pegnet
 
 def HistOK (s : DB) : Prop := ∀ r ∈ s.histT, s.isRecorded r.hash = true
 
-/-- history rows stay attached, and what is recorded stays recorded -/
+/-- every held entry is a recorded one -/
+def HoldOK (s : DB) : Prop := ∀ r ∈ s.holding, s.isRecorded r.entry.hash = true
+
+/-- history rows and holding rows stay attached, and what is recorded stays recorded -/
 def histRel : Rel DB where
-  r s s' := (HistOK s → HistOK s') ∧ ∀ x, s.isRecorded x = true → s'.isRecorded x = true
-  refl _ := ⟨id, fun _ h => h⟩
-  trans _ _ _ h1 h2 := ⟨fun h => h2.1 (h1.1 h), fun x hx => h2.2 x (h1.2 x hx)⟩
+  r s s' := (HistOK s → HistOK s') ∧ (HoldOK s → HoldOK s') ∧ ∀ x, s.isRecorded x = true → s'.isRecorded x = true
+  refl _ := ⟨id, id, fun _ h => h⟩
+  trans _ _ _ h1 h2 := ⟨fun h => h2.1 (h1.1 h), fun h => h2.2.1 (h1.2.1 h), fun x hx => h2.2.2 x (h1.2.2 x hx)⟩
 
-theorem histRel_of_keep {s s' : DB} (hT : s'.histT = s.histT) (hB : s'.histB = s.histB) : histRel.r s s' := by
-  refine ⟨fun h r hr => ?_, fun x hx => ?_⟩
-  · rw [hT] at hr
-    have := h r hr
-    unfold DB.isRecorded at *
-    rw [hB]; exact this
-  · unfold DB.isRecorded at *
-    rw [hB]; exact hx
+/-- a state whose recorded set grew and whose two row tables are the same -/
+theorem histRel_of_mono {s s' : DB} (hT : s'.histT = s.histT) (hH : s'.holding = s.holding)
+    (hm : ∀ x, s.isRecorded x = true → s'.isRecorded x = true) : histRel.r s s' :=
+  ⟨fun h r hr => by rw [hT] at hr; exact hm _ (h r hr), fun h r hr => by rw [hH] at hr; exact hm _ (h r hr), hm⟩
 
-theorem hist_keep {g : DB → Option Failure} {u : DB → DB} (hT : ∀ s, (u s).histT = s.histT) (hB : ∀ s, (u s).histB = s.histB) :
+theorem histRel_of_keep {s s' : DB} (hT : s'.histT = s.histT) (hB : s'.histB = s.histB) (hH : s'.holding = s.holding) : histRel.r s s' :=
+  histRel_of_mono hT hH (fun x hx => by unfold DB.isRecorded at *; rw [hB]; exact hx)
+
+theorem hist_keep {g : DB → Option Failure} {u : DB → DB} (hT : ∀ s, (u s).histT = s.histT) (hB : ∀ s, (u s).histB = s.histB)
+    (hH : ∀ s, (u s).holding = s.holding := by intro _; rfl) :
     Step histRel (M.guarded g u) :=
-  Step.guarded (fun s => histRel_of_keep (hT s) (hB s))
+  Step.guarded (fun s => histRel_of_keep (hT s) (hB s) (hH s))
 
 theorem isRecorded_map (l : List HistBatch) (f : HistBatch → HistBatch) (hf : ∀ r, (f r).hash = r.hash) (x : Hash) :
     (l.map f).any (·.hash == x) = l.any (·.hash == x) := by
@@ -36,38 +39,34 @@ theorem isRecorded_map (l : List HistBatch) (f : HistBatch → HistBatch) (hf : 
   | nil => rfl
   | cons r rest ih => simp only [List.map_cons, List.any_cons, hf, ih]
 
-theorem primsOK_hist (P : Params) (h : Nat) : PrimsOK P h histRel (fun _ => True) (fun _ => False) where
+theorem primsOK_hist (P : Params) (h : Nat) : PrimsOK P h histRel (fun _ => True) (fun _ => False) False where
   addBal _ _ _ := hist_keep (fun _ => rfl) (fun _ => rfl)
   subBal a t v _ := subBal_step_of P a t v (hist_keep (fun _ => rfl) (fun _ => rfl)) (hist_keep (fun _ => rfl) (fun _ => rfl))
   insertRate _ _ := hist_keep (fun _ => rfl) (fun _ => rfl)
-  insertHistBatch r := Step.guarded (fun s => by
-    refine ⟨fun hs q hq => ?_, fun x hx => ?_⟩
-    · have := hs q hq
-      unfold DB.isRecorded at *
-      simp only [List.any_append, this, Bool.true_or]
-    · unfold DB.isRecorded at *
-      simp only [List.any_append, hx, Bool.true_or])
+  insertHistBatch r := Step.guarded (fun s => histRel_of_mono rfl rfl (fun x hx => by
+    unfold DB.isRecorded at *
+    simp only [List.any_append, hx, Bool.true_or]))
   insertHistTx _ hf := hf.elim
-  insertLookup _ := Step.guarded (fun s => by split <;> exact histRel_of_keep rfl rfl)
+  insertLookup _ := Step.guarded (fun s => by split <;> exact histRel_of_keep rfl rfl rfl)
   setExecuted hash v := Step.guarded (fun s => by
     have hm : ∀ x, ({ s with histB := s.histB.map (fun r => if r.hash == hash then { r with executed := v } else r),
                               statusLog := s.statusLog ++ [(hash, v)] } : DB).isRecorded x = s.isRecorded x := by
       intro x
       unfold DB.isRecorded
       exact isRecorded_map s.histB _ (fun r => by split <;> rfl) x
-    exact ⟨fun hs q hq => by rw [hm]; exact hs q hq, fun x hx => by rw [hm]; exact hx⟩)
+    exact histRel_of_mono rfl rfl (fun x hx => by rw [hm]; exact hx))
   setConvertedAmount hash i a := Step.guarded (fun s => by
-    refine ⟨fun hs q hq => ?_, fun x hx => hx⟩
+    refine ⟨fun hs q hq => ?_, fun hs => hs, fun x hx => hx⟩
     obtain ⟨q0, hq0, rfl⟩ := List.mem_map.1 hq
     have := hs q0 hq0
     split <;> exact this)
   setPegConverted hash i a o := Step.guarded (fun s => by
-    refine ⟨fun hs q hq => ?_, fun x hx => hx⟩
+    refine ⟨fun hs q hq => ?_, fun hs => hs, fun x hx => hx⟩
     obtain ⟨q0, hq0, rfl⟩ := List.mem_map.1 hq
     have := hs q0 hq0
     split <;> exact this)
-  insertRelation _ _ _ _ _ := Step.guarded (fun s => by split <;> exact histRel_of_keep rfl rfl)
-  insertHolding _ _ := hist_keep (fun _ => rfl) (fun _ => rfl)
+  insertRelation _ _ _ _ _ := Step.guarded (fun s => by split <;> exact histRel_of_keep rfl rfl rfl)
+  insertHolding _ _ hf := hf.elim
   insertBank _ := hist_keep (fun _ => rfl) (fun _ => rfl)
   updateBank _ _ _ := hist_keep (fun _ => rfl) (fun _ => rfl)
   insertGrade _ _ _ _ _ := hist_keep (fun _ => rfl) (fun _ => rfl)
@@ -101,7 +100,7 @@ theorem bind {m : LM α} {f : α → LM β} (hm : RecStep x m) (hf : ∀ a, RecS
   | fail e s1 => rw [hms] at h1; exact h1
   | ok a s1 =>
     rw [hms] at h1
-    exact histRel.trans _ _ _ h1 (hf a s1 (h1.2 x hs))
+    exact histRel.trans _ _ _ h1 (hf a s1 (h1.2.2 x hs))
 
 theorem forEach {l : List α} {f : α → LM Unit} (hf : ∀ a, RecStep x (f a)) : RecStep x (M.forEach l f) := by
   induction l with
@@ -114,7 +113,20 @@ theorem insertHistTx (r : HistTx) (hr : r.hash = x) : RecStep x (Pegnet.insertHi
   simp only [Pegnet.insertHistTx, M.guarded]
   split
   · exact histRel.refl s
-  · refine ⟨fun hok q hq => ?_, fun y hy => hy⟩
+  · refine ⟨fun hok q hq => ?_, fun hh => hh, fun y hy => hy⟩
+    rcases List.mem_append.1 hq with hq | hq
+    · exact hok q hq
+    · simp only [List.mem_singleton] at hq
+      subst hq
+      rw [hr]; exact hs
+
+/-- the holding row of a recorded entry -/
+theorem insertHolding (r : HoldRow) (hr : r.entry.hash = x) : RecStep x (Pegnet.insertHolding r) := by
+  intro s hs
+  simp only [Pegnet.insertHolding, M.guarded]
+  split
+  · exact histRel.refl s
+  · refine ⟨fun hh => hh, fun hok q hq => ?_, fun y hy => hy⟩
     rcases List.mem_append.1 hq with hq | hq
     · exact hok q hq
     · simp only [List.mem_singleton] at hq
@@ -133,20 +145,17 @@ theorem batch_then {α} (b : HistBatch) {k : LM α} (hk : RecStep b.hash k) : St
   · simp only [hany, if_true]
     exact histRel.refl s
   · simp only [hany, Bool.false_eq_true, if_false]
-    have h1 : histRel.r s { s with histB := s.histB ++ [b] } := by
-      refine ⟨fun hs q hq => ?_, fun y hy => ?_⟩
-      · have := hs q hq
+    have h1 : histRel.r s { s with histB := s.histB ++ [b] } :=
+      histRel_of_mono rfl rfl (fun y hy => by
         unfold DB.isRecorded at *
-        simp only [List.any_append, this, Bool.true_or]
-      · unfold DB.isRecorded at *
-        simp only [List.any_append, hy, Bool.true_or]
+        simp only [List.any_append, hy, Bool.true_or])
     have hrec : ({ s with histB := s.histB ++ [b] } : DB).isRecorded b.hash = true := by
       unfold DB.isRecorded
       simp
     exact histRel.trans _ _ _ h1 (hk _ hrec)
 
 theorem hist_lookup (r : HistLookup) : Step histRel (insertLookup r) :=
-  Step.guarded (fun s => by split <;> exact histRel_of_keep rfl rfl)
+  Step.guarded (fun s => by split <;> exact histRel_of_keep rfl rfl rfl)
 
 theorem hist_addBal (P : Params) (a : Addr) (t : Ticker) (v : Nat) : Step histRel (addBal P a t v) :=
   hist_keep (fun _ => rfl) (fun _ => rfl)
@@ -206,10 +215,20 @@ theorem hist_insertZeroingCoinbase (txid : String) (i hh : Nat) (ts : Int) (payo
   · exact RecStep.bind (RecStep.throw _) (fun _ => hjp)
   · exact hjp
 
-/-- `recordHistory`: the batch row of the entry, then one transaction row per transaction -/
-theorem hist_recordHistory (P : Params) (h bo : Nat) (e : TxEntry) : Step histRel (recordHistory P h bo e) := by
-  unfold recordHistory
-  apply batch_then
+/-- the per-transaction rows of `recordHistory`, while the batch row of the entry is there -/
+theorem rec_historyRows (P : Params) (e : TxEntry) :
+    RecStep e.hash (M.forEachIdx e.txs fun idx t => do
+      insertLookup { hash := e.hash, txIndex := idx, addr := t.inAddr }
+      if t.isConversion P then
+        insertHistTx { hash := e.hash, txIndex := idx, action := 2, fromAddr := t.inAddr, fromAsset := tickerName P t.inType,
+                       fromAmount := t.inAmount, toAsset := tickerName P t.conversion, toAmount := 0, outputs := "",
+                       fromT := t.inType, toT := t.conversion }
+      else do
+        M.forEach t.transfers fun tr => insertLookup { hash := e.hash, txIndex := idx, addr := tr.addr }
+        insertHistTx { hash := e.hash, txIndex := idx, action := 1, fromAddr := t.inAddr, fromAsset := tickerName P t.inType,
+                       fromAmount := t.inAmount, toAsset := "", toAmount := 0,
+                       outputs := renderOutputs (t.transfers.map fun tr => (tr.addr, (tr.amount : Int))),
+                       fromT := t.inType, outs := t.transfers.map fun tr => (tr.addr, tr.amount) }) := by
   unfold M.forEachIdx
   apply RecStep.forEach
   intro p
@@ -218,6 +237,24 @@ theorem hist_recordHistory (P : Params) (h bo : Nat) (e : TxEntry) : Step histRe
   split
   · exact RecStep.insertHistTx _ rfl
   · exact RecStep.bind (RecStep.forEach (fun tr => RecStep.of_step (hist_lookup _))) (fun _ => RecStep.insertHistTx _ rfl)
+
+/-- `recordHistory`: the batch row of the entry, then one transaction row per transaction -/
+theorem hist_recordHistory (P : Params) (h bo : Nat) (e : TxEntry) : Step histRel (recordHistory P h bo e) := by
+  unfold recordHistory
+  exact batch_then _ (rec_historyRows P e)
+
+theorem M.bind_assoc' {α β γ : Type} (m : LM α) (f : α → LM β) (g : β → LM γ) :
+    ((m >>= f) >>= g) = (m >>= fun a => f a >>= g) := by
+  funext s
+  simp only [M.bind_run]
+  cases m s <;> rfl
+
+/-- the arrival of an entry with conversions: its history rows, then its holding row -/
+theorem hist_recordAndHold (P : Params) (h : Nat) (keymr : String) (bo : Nat) (e : TxEntry) :
+    Step histRel (recordHistory P h bo e >>= fun _ => insertHolding { entry := e, height := h, keymr := keymr }) := by
+  unfold recordHistory
+  rw [M.bind_assoc']
+  exact batch_then _ (RecStep.bind (rec_historyRows P e) (fun _ => RecStep.insertHolding _ rfl))
 
 /-- the recording part of the staking payout: one batch row, one transaction row per staker, the credits -/
 theorem hist_stakingRows (P : Params) (h : Nat) (ts : Int) (txid : String) (l : List ((Addr × Nat) × (TxKey × Nat))) :
@@ -249,7 +286,7 @@ theorem hist_developersPayouts (P : Params) (h : Nat) (ts : Int) : Step histRel 
 /-- the seven composites that write both history tables respect `histRel` -/
 theorem histComps_hist (P : Params) (h : Nat) : HistComps P h histRel :=
   ⟨hist_insertZeroingCoinbase, hist_snapshotPayouts P h, hist_developersPayouts P h, hist_recordHistory P h,
-   hist_applyFactoidBlock P h, hist_applyGradedOPR P, hist_applyGradedSPR P⟩
+   hist_recordAndHold P h, hist_applyFactoidBlock P h, hist_applyGradedOPR P, hist_applyGradedSPR P⟩
 
 /-! ### along every chain -/
 
@@ -260,23 +297,42 @@ theorem blockTx_hist (P : Params) (c : DB) (b : Block) (avgs : TMap) : Step hist
   blockTx_stepA c b avgs (primsOK_hist P b.height)
     ⟨hist_logExec, histComps_hist P b.height, fun _ _ _ _ _ _ _ => trivial, fun _ _ _ _ _ => trivial, fun _ => trivial, fun _ => trivial⟩
 
-theorem histOK_congr {s s' : DB} (hT : s'.histT = s.histT) (hB : s'.histB = s.histB) (h : HistOK s) : HistOK s' :=
-  (histRel_of_keep hT hB).1 h
+/-- both invariants together -/
+def HistHoldOK (s : DB) : Prop := HistOK s ∧ HoldOK s
 
-theorem applyBlock_histOK (P : Params) (n : Node) (b : Block) (hn : HistOK n.db) : HistOK (applyBlock P n b).1.db := by
+theorem histRel_inv {s s' : DB} (h : histRel.r s s') (hs : HistHoldOK s) : HistHoldOK s' := ⟨h.1 hs.1, h.2.1 hs.2⟩
+
+theorem histOK_congr {s s' : DB} (hT : s'.histT = s.histT) (hB : s'.histB = s.histB) (hH : s'.holding = s.holding)
+    (h : HistHoldOK s) : HistHoldOK s' :=
+  histRel_inv (histRel_of_keep hT hB hH) h
+
+theorem applyBlock_histOK (P : Params) (n : Node) (b : Block) (hn : HistHoldOK n.db) : HistHoldOK (applyBlock P n b).1.db := by
   rcases applyBlock_db P n b with he | ⟨s', avgs, hs, hdb, _⟩
   · rw [he]; exact hn
   · rw [hdb]
-    have h1 := ((blockTx_hist P { n.db with avgTouched := false } b avgs).ok hs).1 (histOK_congr (s := n.db) rfl rfl hn)
-    exact histOK_congr (s := s') rfl rfl h1
+    have h1 := histRel_inv ((blockTx_hist P { n.db with avgTouched := false } b avgs).ok hs) (histOK_congr (s := n.db) rfl rfl rfl hn)
+    exact histOK_congr (s := s') rfl rfl rfl h1
 
-/-- **Every history row belongs to a recorded batch, along every chain.** -/
-theorem runBlocks_histOK (P : Params) (n : Node) (chain : List Block) (hn : HistOK n.db) : HistOK (runBlocks P n chain).db := by
+/-- **Every history row and every held entry belongs to a recorded batch, along every chain.** -/
+theorem runBlocks_histHoldOK (P : Params) (n : Node) (chain : List Block) (hn : HistHoldOK n.db) : HistHoldOK (runBlocks P n chain).db := by
   induction chain generalizing n with
   | nil => exact hn
   | cons b bs ih => exact ih _ (applyBlock_histOK P n b hn)
 
-theorem histOK_fresh (P : Params) : HistOK (freshNode P).db := fun _ h => absurd h List.not_mem_nil
+theorem histHoldOK_fresh (P : Params) : HistHoldOK (freshNode P).db :=
+  ⟨fun _ h => absurd h List.not_mem_nil, fun _ h => absurd h List.not_mem_nil⟩
+
+theorem runBlocks_histOK (P : Params) (n : Node) (chain : List Block) (hn : HistHoldOK n.db) : HistOK (runBlocks P n chain).db :=
+  (runBlocks_histHoldOK P n chain hn).1
+
+theorem histOK_fresh (P : Params) : HistHoldOK (freshNode P).db := histHoldOK_fresh P
+
+/-- an entry that is not recorded is not held -/
+theorem unheld_of_holdOK {s : DB} (hs : HoldOK s) (x : Hash) (hx : s.isRecorded x = false) : ∀ r ∈ s.holding, r.entry.hash ≠ x := by
+  intro r hr he
+  have := hs r hr
+  rw [he, hx] at this
+  cases this
 
 /-- an entry that is not recorded has no history row yet -/
 theorem fresh_of_histOK {s : DB} (hs : HistOK s) (x : Hash) (hx : s.isRecorded x = false) : ∀ r ∈ s.histT, r.hash ≠ x := by
@@ -286,44 +342,49 @@ theorem fresh_of_histOK {s : DB} (hs : HistOK s) (x : Hash) (hx : s.isRecorded x
   cases this
 
 
-/-! ### liveness of the transfer class on every reachable ledger -/
+/-! ### liveness of the arrival path on every reachable ledger -/
 
-/-- what makes an entry harmless: it does not validate, or it is a batch of plain transfers of one
-    sender other than the burn address -/
+/-- what makes an arriving entry harmless: it does not validate; or it holds a conversion (it is only
+    recorded and held); or it is a batch of plain transfers of one sender other than the burn address -/
 def HarmlessEntry (P : Params) (h : Nat) (e : TxEntry) : Prop :=
-  e.validAt P h = false ∨
+  e.validAt P h = false ∨ e.hasConversions P = true ∨
   ∃ a, a ≠ burnAddrAt P h ∧ (∀ t ∈ e.txs, t.inAddr = a) ∧ ∀ t ∈ e.txs, PlainTransfer P t
 
 theorem harmless_entry_never_fails (P : Params) (h : Nat) (keymr : String) (bo : Nat) (e : TxEntry) (s : DB)
-    (hs : HistOK s) (he : HarmlessEntry P h e) :
-    ∃ s', applyTxEntry P h keymr bo e s = .ok () s' ∧ HistOK s' := by
+    (hs : HistHoldOK s) (he : HarmlessEntry P h e) :
+    ∃ s', applyTxEntry P h keymr bo e s = .ok () s' ∧ HistHoldOK s' := by
   have hstep : Step histRel (applyTxEntry P h keymr bo e) :=
-    applyTxEntry_stepA (primsOK_hist P h) keymr bo e (fun _ _ _ => trivial) hist_logExec (hist_recordHistory P h)
+    applyTxEntry_stepA (primsOK_hist P h) keymr bo e (fun _ _ _ => trivial) hist_logExec (hist_recordHistory P h) (hist_recordAndHold P h)
+  have hskip : s.isRecorded e.hash = true → applyTxEntry P h keymr bo e s = .ok () s := by
+    intro hrec
+    unfold applyTxEntry
+    rw [M.bind_run]
+    simp only [M.get_run, hrec, Bool.not_true, Bool.and_false, Bool.false_eq_true, if_false]
+    rfl
   have key : ∃ s', applyTxEntry P h keymr bo e s = .ok () s' := by
-    rcases he with hv | ⟨a, hb, hall, hplain⟩
+    rcases he with hv | hconv | ⟨a, hb, hall, hplain⟩
     · exact ⟨s, by
         unfold applyTxEntry
         rw [M.bind_run]
         simp only [M.get_run, hv, Bool.false_and, Bool.false_eq_true, if_false]
         rfl⟩
     · cases hrec : s.isRecorded e.hash with
-      | false => exact transfer_entry_never_fails P h keymr bo e s a hb hall hplain (fresh_of_histOK hs e.hash hrec)
-      | true => exact ⟨s, by
-          unfold applyTxEntry
-          rw [M.bind_run]
-          simp only [M.get_run, hrec, Bool.not_true, Bool.and_false, Bool.false_eq_true, if_false]
-          rfl⟩
+      | false => exact conversion_entry_arrival_never_fails P h keymr bo e s hconv (fresh_of_histOK hs.1 e.hash hrec) (unheld_of_holdOK hs.2 e.hash hrec)
+      | true => exact ⟨s, hskip hrec⟩
+    · cases hrec : s.isRecorded e.hash with
+      | false => exact transfer_entry_never_fails P h keymr bo e s a hb hall hplain (fresh_of_histOK hs.1 e.hash hrec)
+      | true => exact ⟨s, hskip hrec⟩
   obtain ⟨s', h'⟩ := key
-  exact ⟨s', h', (hstep.ok h').1 hs⟩
+  exact ⟨s', h', histRel_inv (hstep.ok h') hs⟩
 
-/-- **No transaction-chain entry block made of transfer-only and invalid entries can fail**, on any
-    ledger whose history is consistent (every reachable one: `runBlocks_histOK`). -/
+/-- **No entry block of the transaction chain made of harmless entries can fail**, on any ledger
+    whose history and holding tables are consistent (every reachable one: `runBlocks_histHoldOK`). -/
 theorem harmless_tx_block_never_fails (P : Params) (h : Nat) (keymr : String) (es : List TxEntry) (s : DB)
-    (hs : HistOK s) (he : ∀ e ∈ es, HarmlessEntry P h e) :
-    ∃ s', applyTransactionBlock P h keymr es s = .ok () s' ∧ HistOK s' := by
+    (hs : HistHoldOK s) (he : ∀ e ∈ es, HarmlessEntry P h e) :
+    ∃ s', applyTransactionBlock P h keymr es s = .ok () s' ∧ HistHoldOK s' := by
   unfold applyTransactionBlock M.forEachIdx
-  suffices hk : ∀ (k : Nat) (s : DB), HistOK s →
-      ∃ s', M.forEach (es.zipIdx k) (fun p => applyTxEntry P h keymr p.2 p.1) s = .ok () s' ∧ HistOK s' from hk 0 s hs
+  suffices hk : ∀ (k : Nat) (s : DB), HistHoldOK s →
+      ∃ s', M.forEach (es.zipIdx k) (fun p => applyTxEntry P h keymr p.2 p.1) s = .ok () s' ∧ HistHoldOK s' from hk 0 s hs
   induction es with
   | nil => intro k s hs; exact ⟨s, rfl, hs⟩
   | cons e rest ih =>
